@@ -21,15 +21,17 @@ COUNT_TAGS = ("RC", "FC", "KC")
 # --------------------------------------------------------------------------
 # spec -> code: the enumerated cases
 
-def _mc_cfg(nseg, maxlinks, invariants):
-    return ("SPECIFICATION Spec\nCONSTANT NSeg = %d\nCONSTANT MaxLinks = %d\nCONSTRAINT Emit\n" % (nseg, maxlinks)
+def _mc_cfg(nseg, maxlinks, lawlinks, invariants):
+    return ("SPECIFICATION Spec\nCONSTANT NSeg = %d\nCONSTANT MaxLinks = %d\nCONSTANT LawLinks = %d\n"
+            "CONSTRAINT Emit\n" % (nseg, maxlinks, lawlinks)
             + "".join("INVARIANT %s\n" % i for i in invariants) + "CHECK_DEADLOCK FALSE\n")
 
 
-def mc_graphs(module, nseg, maxlinks, name, invariants):
+def mc_graphs(module, nseg, maxlinks, name, invariants, lawlinks=None):
     """Run the enumeration module; returns (list of case dicts, (generated, distinct))."""
     wd = tlc.workdir(name)
-    rc, out = tlc.run_tlc(module, _mc_cfg(nseg, maxlinks, invariants), wd, workers=NCPU, heap="4g")
+    lawlinks = maxlinks if lawlinks is None else lawlinks
+    rc, out = tlc.run_tlc(module, _mc_cfg(nseg, maxlinks, lawlinks, invariants), wd, workers=NCPU, heap="4g")
     tlc.check_ok(rc, out, "%s NSeg=%d MaxLinks=%d" % (module, nseg, maxlinks))
     st = tlc.stats(out)
     cases = []
@@ -389,12 +391,13 @@ def c14_jobs(tier, seed, out=None):
         cases = base + sample
     else:
         base, st1 = mc_graphs("MC_LinearPaths", 3, 4, "graphops-mc14-3", C14_INV)
-        big, st2 = mc_graphs("MC_LinearPaths", 4, 4, "graphops-mc14-4", C14_INV)
+        big, st2 = mc_graphs("MC_LinearPaths", 4, 4, "graphops-mc14-4", C14_INV, lawlinks=3)
         n4 = [c for c in big if len(c["links"]) == 4]
         rest = [c for c in big if len(c["links"]) < 4]
-        sample = rnd.sample(n4, min(len(n4), 30000))
+        sample = rnd.sample(n4, min(len(n4), 20000))
         bounds = ("3 segments x <= 4 dovetails and 4 segments x <= 3 dovetails exhaustive; "
-                  "4 segments x 4 dovetails: %d of %d sampled" % (len(sample), len(n4)))
+                  "4 segments x 4 dovetails: %d of %d sampled (laws of the definitions checked by TLC "
+                  "up to 3 dovetails there)" % (len(sample), len(n4)))
         cases = base + rest + sample
     jobs = []
     for i, c in enumerate(cases):
@@ -484,7 +487,7 @@ C15_INV = ["Satisfiable", "Discriminating"]
 def mc_multiply(nseg, maxlinks, lawlinks, name):
     """MC_Multiply: graphs (CASE), the argument catalogue (ARGS), laws checked in the same run."""
     wd = tlc.workdir(name)
-    cfg = _mc_cfg(nseg, maxlinks, C15_INV).replace("CONSTRAINT", "CONSTANT LawLinks = %d\nCONSTRAINT" % lawlinks)
+    cfg = _mc_cfg(nseg, maxlinks, lawlinks, C15_INV)
     rc, out = tlc.run_tlc("MC_Multiply", cfg, wd, workers=NCPU, heap="4g")
     tlc.check_ok(rc, out, "MC_Multiply NSeg=%d MaxLinks=%d" % (nseg, maxlinks))
     st = tlc.stats(out)
